@@ -301,4 +301,69 @@ theorem transP_eq (d : W8) : transP d = P d := by
   simp only [byte_0_1, byte_0_2, byte_0_3]
   rfl
 
+/-! ## GOST 28147-89: the unrolled 32 rounds are `E` -/
+
+set_option maxRecDepth 10000 in
+theorem sb_table : ∀ i, i < 8 → ∀ v, v < 16 → kBlock[16 * i + v]! = UInt32.ofNat ((gostKBlock.getD i []).getD v 0) := by decide +kernel
+
+theorem nib_lt (x : UInt32) : (x &&& (0xF : UInt32)).toNat < 16 := by
+  rw [UInt32.toNat_and]
+  have := Nat.and_le_right (n := x.toNat) (m := (0xF : UInt32).toNat)
+  have e : (0xF : UInt32).toNat = 15 := rfl
+  omega
+
+theorem sb_eq (i : Nat) (hi : i < 8) (x : UInt32) : sb i x = sbox i (x &&& (0xF : UInt32)) := by
+  unfold sb sbox
+  exact sb_table i hi _ (nib_lt x)
+
+theorem range8 : List.range 8 = [0,1,2,3,4,5,6,7] := by decide
+
+theorem subst_eq (x : UInt32) : subst x =
+    sb 0 x ||| (sb 1 (x >>> 4) <<< 4) ||| (sb 2 (x >>> 8) <<< 8) ||| (sb 3 (x >>> 12) <<< 12)
+    ||| (sb 4 (x >>> 16) <<< 16) ||| (sb 5 (x >>> 20) <<< 20) ||| (sb 6 (x >>> 24) <<< 24) ||| (sb 7 (x >>> 28) <<< 28) := by
+  simp only [sb_eq _ (by decide : (0:Nat) < 8), sb_eq _ (by decide : (1:Nat) < 8), sb_eq _ (by decide : (2:Nat) < 8),
+    sb_eq _ (by decide : (3:Nat) < 8), sb_eq _ (by decide : (4:Nat) < 8), sb_eq _ (by decide : (5:Nat) < 8),
+    sb_eq _ (by decide : (6:Nat) < 8), sb_eq _ (by decide : (7:Nat) < 8)]
+  simp [subst, range8]
+
+theorem round_eq (n0 n1 k : UInt32) : Gost.round n0 n1 k = roundE (n0, n1) k := by
+  simp only [Gost.round, roundE, rotl11, subst_eq]
+
+set_option maxRecDepth 100000 in
+theorem encrypt_fold (d0 d1 : UInt32) (k : W8) :
+    encrypt d0 d1 k =
+      (let r := ([k.w0, k.w1, k.w2, k.w3, k.w4, k.w5, k.w6, k.w7, k.w0, k.w1, k.w2, k.w3, k.w4, k.w5, k.w6, k.w7,
+                  k.w0, k.w1, k.w2, k.w3, k.w4, k.w5, k.w6, k.w7, k.w7, k.w6, k.w5, k.w4, k.w3, k.w2, k.w1, k.w0] : List UInt32).foldl
+          (fun n key => Gost.round n.1 n.2 key) (d0, d1)
+       (r.2, r.1)) := by
+  rfl
+
+theorem encrypt_eq (d0 d1 : UInt32) (k : W8) : encrypt d0 d1 k = E k d0 d1 := by
+  rw [encrypt_fold]
+  unfold E
+  have hk : keyOrder.map (fun i => k.toList.getD i 0) =
+      [k.w0, k.w1, k.w2, k.w3, k.w4, k.w5, k.w6, k.w7, k.w0, k.w1, k.w2, k.w3, k.w4, k.w5, k.w6, k.w7,
+       k.w0, k.w1, k.w2, k.w3, k.w4, k.w5, k.w6, k.w7, k.w7, k.w6, k.w5, k.w4, k.w3, k.w2, k.w1, k.w0] := by
+    cases k; rfl
+  rw [← hk, List.foldl_map]
+  simp only [round_eq]
+
+/-! ## key generation: the in-place updates of `U[]`, `V[]` are `A`, `A∘A` and the constants `C2…C4` -/
+
+theorem C3_words : C3 = ⟨0xff00ff00, 0xff00ff00, 0x00ff00ff, 0x00ff00ff, 0x00ffff00, 0xff0000ff, 0x000000ff, 0xff00ffff⟩ := by decide
+theorem c3_vals : c3 0 = 0x000000FF ∧ c3 1 = 0xFF00FFFF ∧ c3 2 = 0xFF00FF00 ∧ c3 3 = 0xFF00FF00 ∧ c3 4 = 0x00FF00FF ∧
+    c3 5 = 0x00FF00FF ∧ c3 6 = 0x00FFFF00 ∧ c3 7 = 0xFF0000FF := by decide
+
+theorem keyGenW_eq (h m : W8) : keyGenW h m = keyW h m := by
+  cases h; cases m
+  obtain ⟨e0, e1, e2, e3, e4, e5, e6, e7⟩ := c3_vals
+  simp only [keyGenW, keyW, A, xor8, C2, C4, C3_words, W8.zero, e0, e1, e2, e3, e4, e5, e6, e7, UInt32.xor_zero,
+    Prod.mk.injEq, W8.mk.injEq]
+  simp only [UInt32.xor_assoc, and_self]
+
+/-- **the step function of the C code is the standard's χ** -/
+theorem step_eq_chi (h m : W8) : Gost.step h m = GostStd.chi h m := by
+  unfold Gost.step GostStd.chi
+  simp only [keyGenW_eq, transP_eq, encrypt_eq, lfsr12_eq, lfsr1_eq, lfsr61_eq]
+
 end PV.HashX.GostProof
